@@ -63,8 +63,9 @@ FC = {"rc": 1, "rd": 2, "rh": 3, "ri": 4, "wc": 5, "wr": 6, "wC": 15, "wR": 16}
 
 
 class Req:
-    def __init__(self, rid, kind, unit, timeout, a, b):
+    def __init__(self, rid, kind, unit, timeout, a, b, tmo_tok=None):
         self.rid, self.kind, self.unit, self.timeout, self.a, self.b = rid, kind, unit, timeout, a, b
+        self.tmo_tok = tmo_tok if tmo_tok is not None else str(timeout)
 
     def args(self):
         return "%s.%s" % (self.a, self.b)
@@ -259,7 +260,11 @@ class Script:
                 b = "-"
             else:
                 b = "n%ds%d" % (r.choice([1, 2, 50, 122, 123, 124, 125, 126, 200]), r.randrange(100))
-        q = Req(rid, kind, unit, timeout, a, b)
+        tok = None
+        if r.random() < 0.03:
+            secs = r.choice([1, 5, 18446744073709551615, 9223372036854775807, 1000000000000])
+            timeout, tok = secs * 1000, "%ds" % secs
+        q = Req(rid, kind, unit, timeout, a, b, tok)
         self.reqs[rid] = q
         return q
 
@@ -278,7 +283,7 @@ class Script:
             style = r.choice("RRRCCTQ")
         if h < len(self.handles) and self.handles[h] and not self.killed:
             self.enq.append(q.rid)   # if it was refused it simply never shows up as consumed
-        return "%s%d.%s.%s.%d.%d.%s" % (style, h, q.rid, q.kind, q.unit, q.timeout, q.args())
+        return "%s%d.%s.%s.%d.%s.%s" % (style, h, q.rid, q.kind, q.unit, q.tmo_tok, q.args())
 
     def reply_steps(self):
         """steps that answer (or almost answer) the request in flight"""
@@ -344,7 +349,7 @@ class Script:
             bs = bs + [r.randrange(256) for _ in range(r.choice([1, 3, 7, 9]))]
         # timing relative to the deadline when we know it
         tmo = q.timeout if q is not None else None
-        if fresh and tmo is not None and tmo > 0 and r.random() < 0.6:
+        if fresh and tmo is not None and 0 < tmo < 100000 and r.random() < 0.6:
             pre = r.choice([tmo - 1, tmo - 1, tmo, tmo + 1, tmo // 2, 0])
         else:
             pre = None
@@ -393,7 +398,7 @@ class Script:
             return st[0]
         if op == "A_dead":
             q = self.inflight[0]
-            t = q.timeout if q else 10
+            t = q.timeout if q and q.timeout < 100000 else 10
             return "A%d" % r.choice([t, t, max(0, t - 1), t + 1, 2 * t, 1])
         if op == "N":
             self.have_io = True
